@@ -386,6 +386,10 @@ def key_of(dif, verdict, stage, error, reason=""):
     if dif and dif[0][2] == "accepted silently":
         return "C05:not-refused" + (":" + reason if reason else "")
     path = dif[0][0] if dif else "?"
+    if re.match(r"/networks/[^/]+/cont/[^/]+/syn\[\d+\]\[0\]", path) and str(dif[0][2]).startswith("silentSyn_"):
+        return "C05:continuous.pre-component-not-in-document"
+    if path == "/annotation":
+        return "C05:document.annotation"
     m = re.match(r"/networks/[^/]+/(proj|elec|cont|il)/[^/]+/rows(?:\[(\d+)\]\[(\d+)\])?(#len)?", path)
     if m:
         if m.group(4):
@@ -613,7 +617,7 @@ def run(ck):
             if okn:
                 ck.compile_props()
             else:
-                for nm in ("C05_row", "C05_table", "C05_table_construct", "C05_roundtrip_partial", "C05_group_attributes", "C05_builder", "C05_refuse"):
+                for nm in ("C05_row", "C05_table", "C05_table_construct", "C05_roundtrip_partial", "C05_network_roundtrip_partial", "C05_group_attributes", "C05_builder", "C05_refuse"):
                     ck.oblige("Props_C05.v:" + nm, False, "an instance obligation it rests on failed", kind="theorem")
             ck.tally("writer_tables", len(t["json"]["writer"]))
             ck.tally("builder_contexts", len(t["json"]["builder"]))
@@ -626,7 +630,10 @@ def run(ck):
         ck.count(1, nontrivial_key="stored:" + key + what[:20])
         ck.tally("stored_witness")
         if not r["verdict"]["ok"]:
-            report(ck, key, what, spec, r, expect=expect)
+            # the structural class is computed from the failure itself (a stored witness may fail for a new reason)
+            k2 = key_of(r["verdict"].get("diff", []), r["verdict"], r["stage"], r["error"],
+                        key.split("C05:not-refused:")[1] if key.startswith("C05:not-refused:") else "")
+            report(ck, k2, what + " [stored witness " + key + "]", spec, r, expect=expect)
         if r.get("doc_untouched") is False:
             ck.witness("C05:writer-changes-the-document", "the writer left the document changed", input={"spec": spec})
 
